@@ -274,6 +274,18 @@ type UKM struct {
 	T *OptT
 	N *int64
 }
+
+// UKMAlt / HasUKMAlt live in a SECOND explicit type system (altSchemaSrc) in which a kinded union
+// of the same NAME as UKM has other members in other positions: what a binding learns about one
+// type system's "UKM" must not leak into the other's.
+type UKMAlt struct {
+	N *int64
+	S *string
+}
+type HasUKMAlt struct {
+	A UKMAlt
+	B UKMAlt
+}
 type HasUKM struct {
 	A UKM
 	B UKM
@@ -410,6 +422,7 @@ type vtype struct {
 	mayRefuseInferred bool // an inferred schema cannot describe this type: a panic is a legal answer, wrong data is not
 	name              string
 	schema            string // type name in the explicit schema
+	alt               bool   // the explicit schema is the second type system (altSchemaSrc)
 	inferable         bool
 	ptr               func() interface{}           // nil pointer of the Go type, for Prototype
 	vals              []func() interface{}         // fresh pointers to values
@@ -609,6 +622,11 @@ var vocab = []vtype{
 			func() interface{} { return &RawOptB{C: []byte{}, Z: 2} },
 			func() interface{} { return &RawOptB{A: []byte{0}, B: []byte{0x62}, C: []byte{1, 2}, Z: 3} },
 		}},
+	{name: "HasUKMAlt", schema: "HasUKMAlt", alt: true, ptr: func() interface{} { return (*HasUKMAlt)(nil) },
+		vals: []func() interface{}{
+			func() interface{} { return &HasUKMAlt{A: UKMAlt{N: ip(3)}, B: UKMAlt{S: sp("s")}} },
+			func() interface{} { return &HasUKMAlt{A: UKMAlt{S: sp("")}, B: UKMAlt{N: ip(0)}} },
+		}},
 	{name: "OptColl", schema: "OptColl", ptr: func() interface{} { return (*OptColl)(nil) },
 		vals: []func() interface{}{
 			func() interface{} {
@@ -661,7 +679,23 @@ func manyOptVals(pairs bool) []func() interface{} {
 	return out
 }
 
-var explicitTS *schema.TypeSystem
+var explicitTS, explicitAltTS *schema.TypeSystem
+
+const altSchemaSrc = `
+type UKM union { | Int int | String string } representation kinded
+type HasUKMAlt struct { A UKM  B UKM }
+`
+
+func tsAlt() *schema.TypeSystem {
+	if explicitAltTS == nil {
+		t, err := ipld.LoadSchemaBytes([]byte(altSchemaSrc))
+		if err != nil {
+			panic("harness: alternative schema does not load: " + err.Error())
+		}
+		explicitAltTS = t
+	}
+	return explicitAltTS
+}
 
 func ts() *schema.TypeSystem {
 	if explicitTS == nil {
@@ -861,6 +895,9 @@ func Exec(o Op) (out string) {
 	var st schema.Type
 	if !o.Inferred {
 		st = ts().TypeByName(vt.schema)
+		if vt.alt {
+			st = tsAlt().TypeByName(vt.schema)
+		}
 		if st == nil {
 			return "harness: no schema type " + vt.schema
 		}
@@ -1084,6 +1121,9 @@ func NewTypeSystem() *schema.TypeSystem {
 // SampleIn is Sample with the explicit schema taken from the given type system.
 func SampleIn(tsys *schema.TypeSystem, which, val int) (name string, n schema.TypedNode) {
 	vt := vocab[which%len(vocab)]
+	if vt.alt {
+		tsys = tsAlt()
+	}
 	return vt.name, bindnode.Wrap(vt.vals[val%len(vt.vals)](), tsys.TypeByName(vt.schema), vt.opts...)
 }
 
